@@ -281,7 +281,7 @@ type canon struct {
 	Len  int    `json:"len"`
 }
 
-func (c canon) String() string { return c.GVK + "/" + c.Name + "#" + c.Sum }
+func (c canon) String() string { return fmt.Sprintf("%s/%s#%s(%dB)", c.GVK, c.Name, c.Sum, c.Len) }
 
 func canonJSON(b []byte) (canon, error) {
 	var v map[string]any
